@@ -113,6 +113,17 @@ def build_app(which, docroot):
         rec(req, "after")
         return res
 
+    # uneven hook tables (the debug page lines the two tables up)
+    if which == "A":
+        @app.after_response()
+        def after2(req, res):
+            rec(req, "after2")
+            return res
+    else:
+        @app.before_response()
+        def before2(req):
+            rec(req, "before2")
+
     @app.route("/hit")
     def hit(req):
         rec(req, "hit-in")
@@ -203,6 +214,11 @@ def build_app(which, docroot):
         @app.default(2)
         def default_get(req):
             return "B-default %s" % req.path
+        # documented in-place configuration of B's own tables
+        app.json_mime_types.append("application/vnd.verif+json")
+        if "multipart/form-data" in app.form_mime_types:
+            app.form_mime_types.remove("multipart/form-data")
+        app.set_filter("vf", r"[a-c]+", str.upper)
     return app
 
 
@@ -224,6 +240,12 @@ KINDS = {
                      content_type="application/json"),
     "badjson": dict(method="POST", path="/post", body=b"{bad",
                     content_type="application/json"),
+    "vndjson": dict(method="POST", path="/post", body=b'{"k": 7}',
+                    content_type="application/vnd.verif+json"),
+    "multipart": dict(method="POST", path="/post",
+                      body=b'--bb\r\nContent-Disposition: form-data; '
+                      b'name="f"\r\n\r\nv\r\n--bb--\r\n',
+                      content_type="multipart/form-data; boundary=bb"),
     "range": dict(path="/range", headers={"Range": "bytes=5-9"}),
     "range416": dict(path="/range", headers={"Range": "bytes=99-"}),
     "suffix": dict(path="/range", headers={"Range": "bytes=-4"}),
@@ -509,6 +531,67 @@ def run(ctx):
                         "history": list(hist), "changed": diff[:6]})
                 compare(which, kind, got, "history", list(hist))
 
+        # ---------------- C2. configuring one application must not reach
+        # another one (already built or built later) nor module state
+        SENT = "verif-sentinel"
+
+        def exposed(app):
+            out = {}
+            for name in dir(type(app)):
+                if name.startswith("_") or not isinstance(
+                        getattr(type(app), name, None), property):
+                    continue
+                try:
+                    out[name] = getattr(app, name)
+                except Exception:   # noqa
+                    pass
+            return out
+
+        def poke(val):
+            """in-place change of a container handed out by a property"""
+            if isinstance(val, list):
+                val.append(SENT)
+            elif isinstance(val, set):
+                val.add(SENT)
+            elif isinstance(val, dict):
+                for inner in list(val.values()):
+                    if isinstance(inner, dict):
+                        inner[987654] = SENT
+                    elif isinstance(inner, list):
+                        inner.append(SENT)
+                val[SENT] = SENT
+        for rnd in range(2 if ctx.quick else 6):
+            first = build_app("A", tmp)
+            pristine = {k: _c(v, 0, frozenset())
+                        for k, v in exposed(first).items() if k != "name"}
+            other = build_app("B", tmp)
+            snap0 = census([first])
+            poked = []
+            for name, val in sorted(exposed(other).items()):
+                if isinstance(val, (list, set, dict)):
+                    poke(val)
+                    poked.append(name)
+            snap1 = census([first])
+            diff = census_diff(snap0, snap1)
+            ctx.case(("config-isolation", rnd), True,
+                     {"poked_properties_of_other_application": poked})
+            ctx.count("config-isolation")
+            if diff:
+                ctx.violation("configuring-one-application-changes-another", {
+                    "poked": poked, "changed": diff[:6]})
+            later = build_app("A", tmp)
+            for name, val in exposed(later).items():
+                if name != "name" and \
+                        _c(val, 0, frozenset()) != pristine.get(name):
+                    ctx.violation(
+                        "configuring-one-application-changes-later-ones",
+                        {"poked": poked, "property": name})
+            for kind in (kinds if rnd == 0 else rng.sample(kinds, 8)):
+                for app, label in ((first, "built-before"),
+                                   (later, "built-after")):
+                    compare("A", kind, do_request(app, kind),
+                            "configuration", [label, poked])
+
         # ---------------- D. interleavings of in-flight requests
         pairs = list(itertools.combinations_with_replacement(SWITCHY, 2))
         if ctx.quick:
@@ -565,8 +648,10 @@ def run(ctx):
         "bodies, ranges, streamed body, static file/304/directory, "
         "debug-info, digest failures, sessions, bad Content-Length) against "
         "application A (debug, custom 404 and exception handler) and B "
-        "sharing the process: all histories of length 1-2 and sampled length "
-        "3, each answer compared with a fresh application's answer and the "
+        "(uneven hook tables, own mime-type tables and filter) sharing the "
+        "process: all histories of length 1-2 and sampled length 3, every "
+        "container an Application property hands out poked on one "
+        "application and the others (built before and after) compared, each answer compared with a fresh application's answer and the "
         "state census (module globals of poorwsgi.*, http.client.responses, "
         "every Application attribute) taken around every request; all "
         "interleavings of two in-flight requests with 4 switch points each "
